@@ -669,6 +669,16 @@ func (e *env) run() {
 	e.quiescent("end")
 	// Liveness of capacity: with nothing held, a full round of uploads must
 	// be possible (no permanent "No unused blocks available").
+	// Injected failures that were not consumed yet (a state write that is to
+	// fail n more times keeps popped blocks from being written back) are
+	// withdrawn first: the clause is about capacity lost for good.
+	s.State.SetFail(0, nil)
+	s.DataSync.SetFail(0, nil)
+	s.M.Dir.ClearFaults()
+	s.M.Blocks.ClearFaults()
+	if cfg.Persistent {
+		e.drain()
+	}
 	fails := 0
 	for k := 0; k < cfg.BlockCount()+2; k++ {
 		data := e.newData(block / 2)
